@@ -5,6 +5,7 @@ From Coq Require Import List NArith ZArith Bool.
 From NV Require Import Lib.Res Gen.Fat Fat.Spec.
 From NV Require Import FatTable.Model FatTable.ProofsBase FatTable.ProofsSet32 FatTable.Proofs.
 From NV Require Import FatAlloc.Model FatAlloc.ProofsBase FatAlloc.ProofsGrow FatAlloc.ProofsOps FatAlloc.ProofsWrite FatAlloc.ProofsFrame FatAlloc.Proofs.
+From NV Require Import FatRead.Model FatData.Model FatData.Spec FatData.ProofsBase FatData.Proofs.
 Import ListNotations.
 Open Scope N_scope.
 
@@ -33,17 +34,17 @@ Print Assumptions C04_set32_top_bits.
 
 (* stage F: truncate (shrink, grow, to zero) keeps the file well-formed, with frame: no other entry changes *)
 Theorem C04_truncate_wf :
-  forall bits cs limit : N, 0 < cs -> limit <= max_valid (PB bits) + 1 -> forall (newsize : N) (st st' : fstate), st_wf (PB bits) cs limit st -> truncate (PB bits) cs limit newsize st = Ok st' -> st_wf (PB bits) cs limit st' /\ size st' = newsize /\ pos st' = pos st /\ length (tbl st') = length (tbl st) /\ ((exists new : list N, new <> [] /\ map st' = map st ++ new /\ new = firstn (length new) (free_scan (PB bits) (tbl st) limit (hint_of (sfat st))) /\ extends (PB bits) limit (tbl st) (map st) (tbl st') (map st')) \/ (exists removed : list N, removed <> [] /\ map st = map st' ++ removed /\ map st' <> [] /\ (forall c : N, In c removed -> get (tbl st') c = 0) /\ (forall c : N, ~ In c (map st) -> get (tbl st') c = get (tbl st) c)) \/ map st' = map st /\ sfat st' = sfat st).
+  forall bits cs limit : N, 0 < cs -> limit <= max_valid (PB bits) + 1 -> forall (newsize : N) (st st' : FatAlloc.Model.fstate), st_wf (PB bits) cs limit st -> truncate (PB bits) cs limit newsize st = Ok st' -> st_wf (PB bits) cs limit st' /\ size st' = newsize /\ pos st' = pos st /\ length (tbl st') = length (tbl st) /\ ((exists new : list N, new <> [] /\ map st' = map st ++ new /\ new = firstn (length new) (free_scan (PB bits) (tbl st) limit (hint_of (sfat st))) /\ extends (PB bits) limit (tbl st) (map st) (tbl st') (map st')) \/ (exists removed : list N, removed <> [] /\ map st = map st' ++ removed /\ map st' <> [] /\ (forall c : N, In c removed -> get (tbl st') c = 0) /\ (forall c : N, ~ In c (map st) -> get (tbl st') c = get (tbl st) c)) \/ map st' = map st /\ sfat st' = sfat st).
 Proof. exact FatAlloc.Proofs.FA_truncate_wf. Qed.
 Print Assumptions C04_truncate_wf.
 
 Theorem C04_write_wf :
-  forall bits cs limit : N, 0 < cs -> limit <= max_valid (PB bits) + 1 -> forall (nbytes : N) (st : fstate), st_wf (PB bits) cs limit st -> let r := write_clusters (PB bits) cs limit nbytes st in st_wf (PB bits) cs limit (fst r) /\ extends (PB bits) limit (tbl st) (map st) (tbl (fst r)) (map (fst r)) /\ (snd r = true -> pos (fst r) = pos st + nbytes /\ size (fst r) = N.max (size st) (pos st + nbytes) /\ (0 < nbytes -> cdiv (pos st + nbytes) cs <= len (map (fst r)))) /\ (snd r = false -> fst r = st \/ free_scan (PB bits) (tbl (fst r)) limit (hint_of (sfat (fst r))) = [] /\ pos (fst r) = len (map (fst r)) * cs /\ size (fst r) = N.max (size st) (pos (fst r))).
+  forall bits cs limit : N, 0 < cs -> limit <= max_valid (PB bits) + 1 -> forall (nbytes : N) (st : FatAlloc.Model.fstate), st_wf (PB bits) cs limit st -> let r := write_clusters (PB bits) cs limit nbytes st in st_wf (PB bits) cs limit (fst r) /\ extends (PB bits) limit (tbl st) (map st) (tbl (fst r)) (map (fst r)) /\ (snd r = true -> pos (fst r) = pos st + nbytes /\ size (fst r) = N.max (size st) (pos st + nbytes) /\ (0 < nbytes -> cdiv (pos st + nbytes) cs <= len (map (fst r)))) /\ (snd r = false -> fst r = st \/ free_scan (PB bits) (tbl (fst r)) limit (hint_of (sfat (fst r))) = [] /\ pos (fst r) = len (map (fst r)) * cs /\ size (fst r) = N.max (size st) (pos (fst r))).
 Proof. exact FatAlloc.Proofs.FA_write_wf. Qed.
 Print Assumptions C04_write_wf.
 
 Theorem C04_close_wf :
-  forall (bits cs limit : N) (st : fstate), st_wf (PB bits) cs limit st -> let st' := close_release true st in st_wf (PB bits) cs limit st' /\ length (tbl st') = length (tbl st) /\ (size st = 0 -> map st' = [] /\ size st' = 0 /\ (forall c : N, In c (map st) -> get (tbl st') c = 0) /\ (forall c : N, ~ In c (map st) -> get (tbl st') c = get (tbl st) c)) /\ (size st <> 0 -> st' = st).
+  forall (bits cs limit : N) (st : FatAlloc.Model.fstate), st_wf (PB bits) cs limit st -> let st' := close_release true st in st_wf (PB bits) cs limit st' /\ length (tbl st') = length (tbl st) /\ (size st = 0 -> map st' = [] /\ size st' = 0 /\ (forall c : N, In c (map st) -> get (tbl st') c = 0) /\ (forall c : N, ~ In c (map st) -> get (tbl st') c = get (tbl st) c)) /\ (size st <> 0 -> st' = st).
 Proof. exact FatAlloc.Proofs.FA_close_wf. Qed.
 Print Assumptions C04_close_wf.
 
@@ -54,13 +55,42 @@ Proof. exact FatAlloc.Proofs.FA_unlink_frees_all. Qed.
 Print Assumptions C04_unlink_frees_all.
 
 Theorem C04_two_files_frame :
-  forall bits cs limit : N, 0 < cs -> limit <= max_valid (PB bits) + 1 -> forall (o : op) (st : fstate) (m2 : list N) (s2 : N), st_wf (PB bits) cs limit st -> file_wf (PB bits) cs limit (tbl st) m2 s2 -> (forall c : N, In c (map st) -> ~ In c m2) -> let st' := apply_op (PB bits) cs limit o st in st_wf (PB bits) cs limit st' /\ file_wf (PB bits) cs limit (tbl st') m2 s2 /\ (forall c : N, In c (map st') -> ~ In c m2).
+  forall bits cs limit : N, 0 < cs -> limit <= max_valid (PB bits) + 1 -> forall (o : ProofsFrame.op) (st : FatAlloc.Model.fstate) (m2 : list N) (s2 : N), st_wf (PB bits) cs limit st -> file_wf (PB bits) cs limit (tbl st) m2 s2 -> (forall c : N, In c (map st) -> ~ In c m2) -> let st' := apply_op (PB bits) cs limit o st in st_wf (PB bits) cs limit st' /\ file_wf (PB bits) cs limit (tbl st') m2 s2 /\ (forall c : N, In c (map st') -> ~ In c m2).
 Proof. exact FatAlloc.Proofs.FA_two_files_frame. Qed.
 Print Assumptions C04_two_files_frame.
 
+(* stage D (bytes of one open file): every seek / write / truncate / read step on the clusters = the same step on a plain byte array (abs = first `size` bytes of the chain s clusters) *)
+Theorem C04_data_step_refines :
+  forall bits cs : N, 0 < cs -> forall (s : dstate) (o : op) (s' : dstate) (out0 : out), ProofsTrunc.Inv (PB bits) cs s -> step (PB bits) cs true s o = (s', Ok out0) -> ProofsTrunc.Inv (PB bits) cs s' /\ spec_step cs (ProofsTrunc.abs s) o = (ProofsTrunc.abs s', Ok out0).
+Proof. exact FatData.Proofs.FD_step_refines. Qed.
+Print Assumptions C04_data_step_refines.
+
+(* stage D: ANY history of such steps on one handle, failed steps included, refines the byte-array specification and keeps the invariant *)
+Theorem C04_data_run_refines :
+  forall bits cs : N, 0 < cs -> forall (ops : list op) (s : dstate), ProofsTrunc.Inv (PB bits) cs s -> ProofsTrunc.Inv (PB bits) cs (fst (run (PB bits) cs true s ops)) /\ spec_run_rel cs (ProofsTrunc.abs s) ops (ProofsTrunc.abs (fst (run (PB bits) cs true s ops))) (snd (run (PB bits) cs true s ops)).
+Proof. exact FatData.Proofs.FD_run_refines. Qed.
+Print Assumptions C04_data_run_refines.
+
+Theorem C04_data_run_refines_ok :
+  forall bits cs : N, 0 < cs -> forall (ops : list op) (s : dstate), ProofsTrunc.Inv (PB bits) cs s -> Forall (fun r : res out => is_ok r = true) (snd (run (PB bits) cs true s ops)) -> spec_run cs (ProofsTrunc.abs s) ops = (ProofsTrunc.abs (fst (run (PB bits) cs true s ops)), snd (run (PB bits) cs true s ops)).
+Proof. exact FatData.Proofs.FD_run_refines_ok. Qed.
+Print Assumptions C04_data_run_refines_ok.
+
+(* a write past end of file: the hole reads as zeros whatever stale bytes the clusters held *)
+Theorem C04_holes_read_zero :
+  forall bits cs : N, 0 < cs -> forall (s : dstate) (p : N) (b : list N) (s1 s2 : dstate) (o1 o2 : out), ProofsTrunc.Inv (PB bits) cs s -> size (fs s) <= p -> step (PB bits) cs true s (OSeek 0 (Z.of_N p)) = (s1, Ok o1) -> step (PB bits) cs true s1 (OWrite b) = (s2, Ok o2) -> ProofsTrunc.Inv (PB bits) cs s2 /\ ProofsTrunc.content s2 = ProofsTrunc.content s ++ repeat 0 (N.to_nat p - N.to_nat (size (fs s))) ++ b /\ (forall i : nat, (N.to_nat (size (fs s)) <= i < N.to_nat p)%nat -> nth_error (ProofsTrunc.content s2) i = Some 0).
+Proof. exact FatData.Proofs.FD_holes_read_zero. Qed.
+Print Assumptions C04_holes_read_zero.
+
+(* frame: clusters outside the file s chain keep their bytes, foreign FAT entries are unchanged *)
+Theorem C04_other_clusters_untouched :
+  forall bits cs : N, 0 < cs -> forall (s : dstate) (o : op), ProofsTrunc.Inv (PB bits) cs s -> let s' := fst (step (PB bits) cs true s o) in length (dat s') = length (dat s) /\ length (tbl (fs s')) = length (tbl (fs s)) /\ (forall c : N, 2 <= c -> ~ In c (map (fs s')) -> getc (dat s') c = getc (dat s) c) /\ (forall c : N, ~ In c (map (fs s)) -> ~ In c (map (fs s')) -> get (tbl (fs s')) c = get (tbl (fs s)) c).
+Proof. exact FatData.Proofs.FD_other_clusters_untouched. Qed.
+Print Assumptions C04_other_clusters_untouched.
+
 (* ANY sequence of file operations on any family of files sharing one table: every file stays well-formed, chains stay disjoint, foreign entries (directories, reserved) keep their value *)
 Theorem C04_history_partial :
-  forall bits cs limit : N, 0 < cs -> limit <= max_valid (PB bits) + 1 -> forall (ops : list (nat * op)) (v : volume), vol_wf (PB bits) cs limit v -> vol_wf (PB bits) cs limit (fold_left (vstep (PB bits) cs limit) ops v) /\ (forall c : N, foreign v c -> foreign (fold_left (vstep (PB bits) cs limit) ops v) c /\ get (ftbl (vfat (fold_left (vstep (PB bits) cs limit) ops v))) c = get (ftbl (vfat v)) c).
+  forall bits cs limit : N, 0 < cs -> limit <= max_valid (PB bits) + 1 -> forall (ops : list (nat * ProofsFrame.op)) (v : volume), vol_wf (PB bits) cs limit v -> vol_wf (PB bits) cs limit (fold_left (vstep (PB bits) cs limit) ops v) /\ (forall c : N, foreign v c -> foreign (fold_left (vstep (PB bits) cs limit) ops v) c /\ get (ftbl (vfat (fold_left (vstep (PB bits) cs limit) ops v))) c = get (ftbl (vfat v)) c).
 Proof. exact FatAlloc.Proofs.FA_history. Qed.
 Print Assumptions C04_history_partial.
 
